@@ -38,7 +38,8 @@ CHARSETS = [None, "latin-1", "utf-8", "utf-16", "gb2312", "ascii", "bogus"]
 CHARSETS_T = CHARSETS + ["utf-32", "UTF-8"]
 DECLARED = ["utf-8", "latin-1", "gb2312", "utf-16", "bogus"]
 PREFIX = ["none", "bom", "meta", "xml", "css", "late-meta"]
-CLASSES = {"ascii": "a", "latin1-high": "\xe9", "bmp": "中", "astral": "\U0001f600", "surrogate": "\udc80"}
+CLASSES = {"ascii": "a", "latin1-high": "\xe9", "bmp": "中", "astral": "\U0001f600", "surrogate": "\udc80",
+           "bom-lookalike": "\xff\xfe"}  # the characters U+00FF U+00FE: as latin-1 *bytes* they would be a UTF-16 byte order mark
 BOM = "﻿"
 
 
@@ -66,10 +67,15 @@ def _representable(text, charset):
     except LookupError:
         return None
     try:
-        text.encode("gb18030" if charset.lower() in ("gb2312", "gbk") else charset)
-        return True
+        raw = text.encode("gb18030" if charset.lower() in ("gb2312", "gbk") else charset)
     except UnicodeEncodeError:
         return False
+    # a body whose first bytes form a byte order mark is read in the BOM's encoding whatever the header says (the property quantifies
+    # over bodies carrying BOMs): text that merely *encodes to* such bytes (U+00FF U+00FE in latin-1) is not representable in that charset
+    if raw.startswith((b"\xff\xfe", b"\xfe\xff", b"\xef\xbb\xbf", b"\x00\x00\xfe\xff")) and not text.startswith(BOM) \
+            and not charset.lower().replace("-", "").replace("_", "").startswith(("utf16", "utf32")):
+        return False
+    return True
 
 
 def h_text(X, thorough):
